@@ -93,6 +93,13 @@ def gen_case(rng, tier, idx):
     changes = []
     for _ in range(rng.choice([0, 0, 1, 2, 3, 6])):
         t = rng.randrange(T)
+        if rng.random() < 0.35:
+            # on and around the generation-chunk boundaries (also relative to an earlier change point)
+            base_t = rng.choice([0] + [c["t"] for c in changes])
+            cand = [base_t + k * 100 + d for k in (1, 2, 3) for d in (-2, -1, 0, 1)]
+            cand = [x for x in cand if 0 <= x < T]
+            if cand:
+                t = rng.choice(cand)
         r = rng.random()
         m = rng.choice(mk)["id"]
         if r < 0.25:
